@@ -1000,6 +1000,9 @@ func (x *Exec) indexAddr(fr *Frame, st *State, t *ssa.IndexAddr) Val {
 		return Val{Typ: t.Type(), Loc: x.locOf(base).extend(Step{IsIdx: true, Idx: i}, et)}
 	case *types.Slice:
 		x.safety(st, fr, "index", t.Pos(), smtAnd("(<= 0 "+i+")", "(< "+i+" "+base.L[2]+")"))
+		if len(i) < 100 {
+			x.idxTerms = append(x.idxTerms, idxTerm{i, len(x.decls)})
+		}
 		abs := i
 		if base.L[1] != "0" {
 			abs = "(+ " + base.L[1] + " " + i + ")"
